@@ -20,8 +20,10 @@
 //!    measured on the same machine: an inner limit that cannot fire leaves the outer outcome monotone
 //!    with threshold in [T, T + c * (solutions + 1)]; an inner limit that fires (Li = T - 1) under a
 //!    large outer limit reports exactly the R sequence and solutions of the single limit Li in Ri while
-//!    every Ro is true / !; an outer limit over (inner-limited G, three more calls) has a larger
-//!    threshold than without the extra calls (the outer count goes on after the inner limit is removed);
+//!    every Ro is true / !; an outer limit over (inner-limited G, 20 more recursive calls) needs at least
+//!    20 more inferences than over (inner-limited G, 0 more calls) (the outer count goes on after the
+//!    inner limit is removed); the threshold is never below the number of user-predicate calls the
+//!    reference interpreter makes for the goal;
 //!  * errors: L unbound -> instantiation_error, negative -> domain_error(not_less_than_zero, L),
 //!    not an integer -> type_error(integer, L) (library(iso_ext) source);
 //!  * an enclosing findall/3 around the limited goal collects exactly the R sequence of the run, and
@@ -382,6 +384,7 @@ pub fn check(env: &mut Env, case: &GenCase) -> Verdict {
             SKIPPED.fetch_add(1, Ordering::Relaxed);
             continue;
         }
+        let user_calls = interp.user_calls;
         let goal = goal_text(&q.goal);
         let tmpl = q.template.text();
         // baseline
@@ -410,6 +413,10 @@ pub fn check(env: &mut Env, case: &GenCase) -> Verdict {
             }
             Err(v) => return fails(v, &text),
         };
+        // every call of a user predicate is an inference: the reference's call count is a lower bound
+        if t < user_calls {
+            return fails(Verdict::fail("threshold-below-call-count:", format!("?- {goal}. runs to completion under the limit {t}, but the reference interpreter makes {user_calls} calls of user predicates for it")), &text);
+        }
         let mut limits: Vec<u64> = vec![0, 1, t.saturating_sub(2), t.saturating_sub(1), t, t + 1, t + 2, 10 * t.max(1)];
         for k in 0..3 {
             limits.push(pseudo(seed, (qi as u64) * 7 + k, 2 * t));
@@ -531,15 +538,25 @@ pub fn check(env: &mut Env, case: &GenCase) -> Verdict {
                 if !ok && base.end.is_none() {
                     return fails(Verdict::fail("nested-run:differs-from-plain", format!("?- {goal}. under two non-firing limits: {}\nplain: {}", full.short(), base.short())), &text);
                 }
-                // (c) the outer count goes on after the inner limit has been removed
-                let mut exs = Explorer { s: &mut env.s, goal: goal.clone(), tmpl: tmpl.clone(), base: base.clone(), runs: BTreeMap::new() };
-                let ts = match exs.threshold(&|l| format!("seq({BIG}, {l})"), false, &outer_exc) {
-                    Ok(Some(x)) => x,
-                    Ok(None) => u64::MAX,
-                    Err(v) => return fails(v, &text),
-                };
-                if !base.items.is_empty() && ts != u64::MAX && ts <= tn {
-                    return fails(Verdict::fail("outer-count-lost-after-inner-limit:", format!("?- {goal}. inside an inner limit needs the outer limit {tn}; followed by three more calls inside the outer limit it needs only {ts}")), &text);
+                // (c) the outer count goes on after the inner limit has been removed: calls that follow
+                // the inner limited goal inside the outer limit are counted (20 more recursive calls
+                // need at least 20 more inferences)
+                if !base.items.is_empty() {
+                    let mut ts = [0u64; 2];
+                    for (k, n) in [0u64, 20].iter().enumerate() {
+                        let mut exs = Explorer { s: &mut env.s, goal: goal.clone(), tmpl: tmpl.clone(), base: base.clone(), runs: BTreeMap::new() };
+                        ts[k] = match exs.threshold(&|l| format!("seq({BIG}, {l}, {n})"), false, &outer_exc) {
+                            Ok(Some(x)) => x,
+                            Ok(None) => u64::MAX,
+                            Err(v) => return fails(v, &text),
+                        };
+                    }
+                    if ts[0] != u64::MAX && ts[1] != u64::MAX && ts[1] < ts[0] + 20 {
+                        return fails(
+                            Verdict::fail("outer-count-lost-after-inner-limit:", format!("?- {goal}. inside an inner limit, followed by c40_tail(0) inside the outer limit, needs the outer limit {}; followed by c40_tail(20) (20 more recursive calls) it needs only {}", ts[0], ts[1])),
+                            &text,
+                        );
+                    }
                 }
                 add(&mut classes, "nested:inner-limit-does-not-fire");
             }
@@ -587,7 +604,7 @@ impl Prop for C40 {
     }
     fn run_shard(&self, cfg: &ShardCfg) -> ShardResult {
         let mut d = Driver::new(cfg, "C40");
-        let n = cfg.share(cfg.tier.pick(1_200, 60_000));
+        let n = cfg.share(cfg.tier.pick(900, 60_000));
         let gcfg = GenCfg { max_queries: 4, ..GenCfg::default() };
         d.run("program", 0, n, 60, case_strategy(gcfg), &mk_env, &check);
         d.res.extra.insert("goals_explored".into(), json!(GOALS.load(Ordering::Relaxed)));
